@@ -69,3 +69,45 @@ func ZZ_C07_union_real_memdb() {
 		zzCheckMerged(out, view, snap.ents, reverse)
 	}
 }
+
+// ZZ_C07_union_long_prefix: bounded forward / reverse iteration of the union store over the real ART
+// buffer when every key and bound shares a prefix longer than the 20 bytes an ART node keeps of a
+// compressed path (index keys with a common leading column). Keys and bounds come from small
+// concrete tables (see ZZ_C08_memdb_iter_bounds_long_prefix for why), values are symbolic; the
+// snapshot holds one key between the buffer's keys and one the buffer deletes.
+func ZZ_C07_union_long_prefix() {
+	P := "ppppppppppppppppppppqqqq"
+	keys := [][]byte{[]byte(P + "a"), []byte(P + "al"), []byte(P + "b")}
+	art := newArtDBWithContext()
+	var view []zzKV
+	for i := range keys {
+		switch zzChoice("state", 3) {
+		case 1:
+			v := zzBytesN("v", 1)
+			zzAssume(len(v) > 0)
+			zzAssert(art.Set(keys[i], v) == nil, "union-long.set-no-error")
+			view = append(view, zzKV{keys[i], v})
+		case 2:
+			zzAssert(art.Delete(keys[i]) == nil, "union-long.delete-no-error")
+			view = append(view, zzKV{keys[i], []byte{}})
+		}
+	}
+	snap := &zzStore{ents: []zzKV{{[]byte(P + "ak"), zzBytesN("s0", 1)}, {[]byte(P + "al"), zzBytesN("s1", 1)}}}
+	table := [][]byte{nil, []byte(P[:10]), []byte(P), []byte(P + "a"), []byte(P + "al"), []byte(P + "alz"), []byte(P + "am"), []byte(P + "b"), []byte(P + "c")}
+	lo := table[zzChoice("lo", len(table))]
+	hi := table[zzChoice("hi", len(table))]
+	zzAssume(lo != nil || hi != nil)
+	reverse := zzChoice("reverse", 2) == 1
+	us := NewUnionStore(art, snap)
+	var it Iterator
+	var err error
+	if reverse {
+		it, err = us.IterReverse(hi, lo)
+	} else {
+		it, err = us.Iter(lo, hi)
+	}
+	zzAssert(err == nil, "union-long.iter-opens")
+	out, err := zzDrain(it, len(view)+len(snap.ents))
+	zzAssert(err == nil, "union-long.iter-next-no-error")
+	zzCheckMerged(out, zzInRange(view, lo, hi), zzInRange(snap.ents, lo, hi), reverse)
+}
